@@ -353,7 +353,7 @@ pub fn gen_macro_run(seed: u64, fixtures: &[crate::procsim::CorpusDoc]) -> Macro
     let mut o = MacroOptions::default();
     // document
     let (doc_name, doc, names): (String, String, Vec<String>) = match rng.below(5) {
-        0 => {
+        0 | 4 => {
             let d = crate::procsim::gen_ext_doc(&mut rng);
             (d.name, d.text, vec!["Holder".into(), "Dict".into()])
         }
@@ -384,11 +384,12 @@ pub fn gen_macro_run(seed: u64, fixtures: &[crate::procsim::CorpusDoc]) -> Macro
         .pick(&[None, None, Some("::std::collections::BTreeMap"), Some("std::collections::HashMap"), Some("::indexmap::IndexMap")])
         .map(String::from);
     let pool = [("base64", "0.22.0"), ("my-crate_x", "1.2.3"), ("uuid1", "1.16.0"), ("h2", "0.4.1"), ("plain", "2.0.0"), ("std", "1.0.0"), ("serde_json", "1.0.140"), ("chrono", "0.4.39")];
-    let nc = *rng.pick(&[0usize, 0, 1, 2, 3]);
-    let mut cidx: Vec<usize> = (0..pool.len()).collect();
-    rng.shuffle(&mut cidx);
+    let mentioned = crate::procsim::doc_crates(&doc);
+    let nc = if mentioned.is_empty() { *rng.pick(&[0usize, 0, 1, 2, 3]) } else { *rng.pick(&[0usize, 1, 1, 2, 2, 3]) };
+    let cidx = crate::procsim::crate_order(&mut rng, &mentioned);
+    let _ = &pool;
     for i in cidx.into_iter().take(nc) {
-        let (name, vers) = pool[i];
+        let (name, vers) = crate::procsim::ext_crate(i);
         let version = match rng.below(5) {
             0 => "*".to_string(),
             1 => "!".to_string(),
